@@ -63,10 +63,11 @@ func checkC03(c *Ctx, r *rep.Report) {
 	scalarLayer(c, r)
 	// "every build configuration": signer and verifier use the expected member of each sibling-file group and the same tables
 	for _, cfg := range c.Configs() {
-		if q, _ := c.mustLoad(r, cfg); q != nil {
+		if q, qrl := c.mustLoad(r, cfg); q != nil {
 			ruleConfigSelection(r, q)
 			ruleFieldConstants(r, q)
 			ruleTables(r, q)
+			ruleLimbSizeArgs(r, q, qrl)
 		}
 	}
 }
@@ -186,9 +187,10 @@ func checkC17(c *Ctx, r *rep.Report) {
 		if cfg == "amd64-noasm" {
 			continue
 		}
-		if q, _ := c.mustLoad(r, cfg); q != nil {
+		if q, qrl := c.mustLoad(r, cfg); q != nil {
 			ruleVartimePredicates(r, q)
 			ruleFieldConstants(r, q) // the base point in slot 0 (all four coordinates) on this layout
+			ruleLimbSizeArgs(r, q, qrl)
 		}
 	}
 }
